@@ -58,31 +58,42 @@ fn register_document(ctx: &mut LspContext, uri: &Url, source: &str) {
     ctx.perform_codegen();
 }
 
-fn publish_diagnostics(ctx: &LspContext) -> MosResult<()> {
+fn publish_diagnostics(ctx: &mut LspContext) -> MosResult<()> {
     log::trace!("Publish diagnostics");
 
     let mut result: HashMap<String, Vec<Diagnostic>> =
         to_diagnostics(&ctx.error).into_iter().into_group_map();
 
     // Grab all the files in the project
-    if let Some(tree) = ctx.tree.as_ref() {
-        let filenames = tree
+    let mut filenames = match ctx.tree.as_ref() {
+        Some(tree) => tree
             .code_map
             .files()
             .iter()
             .map(|file| file.name().to_string())
-            .collect_vec();
-
-        // Publish errors (or no errors!) for every file
-        for filename in filenames {
-            let diags = result.remove(filename.as_str()).unwrap_or_default();
-            let params = PublishDiagnosticsParams::new(
-                Url::from_file_path(filename).unwrap(),
-                diags,
-                None, // todo: handle document version
-            );
-            ctx.publish_notification::<PublishDiagnostics>(params)?;
+            .collect_vec(),
+        None => vec![],
+    };
+    // A file that is no longer part of the project (or a project that no longer parses at all) must not keep
+    // the diagnostics it was given before
+    for filename in std::mem::take(&mut ctx.files_with_diagnostics) {
+        if !filenames.contains(&filename) {
+            filenames.push(filename);
         }
+    }
+
+    // Publish errors (or no errors!) for every file
+    for filename in filenames {
+        let diags = result.remove(filename.as_str()).unwrap_or_default();
+        if !diags.is_empty() {
+            ctx.files_with_diagnostics.push(filename.clone());
+        }
+        let params = PublishDiagnosticsParams::new(
+            Url::from_file_path(filename).unwrap(),
+            diags,
+            None, // todo: handle document version
+        );
+        ctx.publish_notification::<PublishDiagnostics>(params)?;
     }
     Ok(())
 }
